@@ -114,6 +114,34 @@ def check_sibling(P, R):
         R.check(ok, "SIBLING.solve", pr.key, f"return {src(v)[:70]}", "solution of precision * w = linear term", "the i-vector is not the solution of (I + sum N T'S^-1 T) w = sum T'S^-1 (F - N m)", r.lineno)
 
 
+def check_every_sample_accumulated(P, R, rule="COVER.samples"):
+    """Every statistics object of the training data contributes to the four accumulators: the sample loop of the E-step has no
+    early exit and the accumulator updates are unconditional (a skip of statistics without any frame is the only accepted filter)."""
+    f = P.func(IV + "e_step")
+    dp = f.value_params[1]
+    loops = [n for n in walk_no_nested(f.node) if isinstance(n, ast.For) and isinstance(n.iter, ast.Name) and n.iter.id == dp]
+    if not loops:
+        R.violation(rule, f.key, f"for <sample> in {dp}", "the E-step no longer iterates over all statistics of its input")
+        return
+    lp = loops[0]
+    for n in walk_no_nested(lp):
+        if isinstance(n, (ast.Break, ast.Continue)):
+            g = getattr(n, "_parent", None)
+            tst = src(g.test).replace(" ", "") if isinstance(g, ast.If) else ""
+            harmless = isinstance(g, ast.If) and ("np.any(" in tst or ".any()" in tst or ".sum()==0" in tst or ".t==0" in tst) and tst.startswith("not") or tst.endswith("==0")
+            R.check(harmless, rule, f.key, f"`{type(n).__name__.lower()}` under `if {src(g.test)[:50] if isinstance(g, ast.If) else ''}`", "only statistics without any frame are skipped", "statistics objects are skipped or the loop is left early: their counts and moments never reach the accumulators, so the M-step maximises the likelihood of a subset", n.lineno)
+    accs = [st for st, t, v, k in stores(lp) if isinstance(t, ast.Attribute) and t.attr in ("nij_sigma_wij2", "fnorm_sigma_wij", "snormij", "nij")]
+    for st in accs:
+        p_ = getattr(st, "_parent", None)
+        cond = False
+        while p_ is not None and p_ is not lp:
+            if isinstance(p_, ast.If):
+                cond = True
+            p_ = getattr(p_, "_parent", None)
+        R.check(not cond, rule, f.key, src(st)[:60], "unconditional", "an accumulator is only updated under a condition", st.lineno)
+    R.floor(rule + " accumulator updates", len(accs), 4)
+
+
 def _inside_like(x):
     p = getattr(x, "_parent", None)
     while p is not None and not isinstance(p, ast.stmt):
@@ -130,6 +158,9 @@ def run(P, R, tier):
     check_precision(P, R)
     check_sibling(P, R)
     check_sigma_floor(P, R)
+    check_every_sample_accumulated(P, R)
+    from ..engines import memo, own as owneng
+    memo.check_class(P, R, owneng.Own(P), "IVectorMachine")
     guard.check_divisions(P, R, ["iv.e_step", "iv.m_step", "iv.project"], ("ivector",))
     # E-step accumulators: N E[ww'], Fnorm E[w]', Snorm, N
     e = P.func(IV + "e_step")
